@@ -87,6 +87,18 @@ func init() {
 			{"garbage", [][]byte{randBytes(r, 500)}, false},
 			{"marker-then-close", [][]byte{{0x30, 0x31, 0x63, 0x64}}, true},
 			{"chunk-header-announcing-4GB", [][]byte{ctl(0x1210, body1210("JS", r, []aFile{{[]byte("big"), []byte{1}}})), chunkBytes("JS", []byte("big"), 0, nil)[:54], {0, 0, 0, 0, 0xff, 0xff, 0xff, 0xff}, randBytes(r, 100)}, true},
+			{"chunk-offset-just-below-2^32-completing-the-announced-size", [][]byte{ctl(0x1210, body1210("JS", r, []aFile{{[]byte("wrap"), make([]byte, 32)}})), ctl(0x1211, body1211([]byte("wrap"), 0, 32)),
+				func() []byte {
+					c := chunkBytes("JS", []byte("wrap"), 0, make([]byte, 32))
+					copy(c[54:58], []byte{0xff, 0xff, 0xff, 0xf0})
+					return c
+				}(), ctl(0x1212, body1211([]byte("wrap"), 0, 32))}, false},
+			{"chunk-offset-2^31-and-length-beyond-the-file", [][]byte{ctl(0x1210, body1210("JS", r, []aFile{{[]byte("far"), make([]byte, 10)}})), ctl(0x1211, body1211([]byte("far"), 0, 10)),
+				func() []byte {
+					c := chunkBytes("JS", []byte("far"), 0, make([]byte, 10))
+					copy(c[54:58], []byte{0x80, 0x00, 0x00, 0x00})
+					return c
+				}(), ctl(0x1212, body1211([]byte("far"), 0, 10))}, false},
 			{"chunk-for-unknown-file", [][]byte{ctl(0x1210, body1210("JS", r, []aFile{{[]byte("a"), []byte{1}}})), chunkBytes("JS", []byte("zzz"), 0, []byte{1, 2})}, false},
 			{"1212-before-any-chunk", [][]byte{ctl(0x1210, body1210("JS", r, []aFile{{[]byte("a"), []byte{1, 2, 3}}})), ctl(0x1212, body1211([]byte("a"), 0, 3))}, false},
 			{"1212-for-unknown-file", [][]byte{ctl(0x1210, body1210("JS", r, []aFile{{[]byte("a"), []byte{1, 2, 3}}})), ctl(0x1212, body1211([]byte("nobody"), 0, 3))}, false},
